@@ -458,6 +458,8 @@ def judge(run, lines, whats, model, impl):
             # read cache; a chunk of more than 16 pages can exhaust it (KDUMP_ERR_BUSY, a documented
             # status); the model has no cache
             run.count("busy-tolerated")
+        elif model[i].startswith("P ? model-"):
+            run.count(model[i][4:])
         elif model[i] not in ("SKIP", "") and not model[i].startswith("P ?"):
             run.count("predicted")
             d = compare_prediction(model[i], il)
